@@ -425,6 +425,10 @@ func libraryCrash(out string) (string, bool) {
 	}
 	crash := out[i:]
 	g := strings.Index(crash, "[running]:")
+	if strings.HasPrefix(crash, "fatal error: all goroutines are asleep") {
+		// a deadlock has no running goroutine: the main goroutine's stack says who waits for ever
+		g = strings.Index(crash, "goroutine 1 [")
+	}
 	if g < 0 {
 		return "", false
 	}
